@@ -286,6 +286,36 @@ def r6_no_relock(ctx):
     R.floor("C09.R6", n, 5, "lock acquisitions in the client crates")
 
 
+def r7_manager_not_cleared_wholesale(ctx):
+    """pending calls are failed by *closing the frontend channel after the cause was recorded* (R1): a caller whose oneshot
+    is dropped earlier is woken with the internal ServiceDisconnect marker and then waits, outside its timeout, for a
+    disconnect that has not been announced yet. So nothing replaces, takes or clears the RequestManager (or its tables)
+    wholesale; entries leave it one by one through its own methods."""
+    F, R = ctx.F, ctx.R
+    n = 0
+    bad = []
+    for b in F.real_bodies():
+        if not re.search(r"^<?jsonrpsee_core::client::", b.path) or is_test_body(b):
+            continue
+        n += 1
+        for c in b.calls_to(r"^std::mem::(take|replace|swap)$|HashMap::<.*>::(clear|drain)$"):
+            tys = " ".join(b.locals[op_place(a)["l"]]["ty"] for a in c.args if op_place(a) is not None) + " " + " ".join(c.ga or [])
+            if re.search(r"(&mut |^| )jsonrpsee_core::client::async_client::manager::RequestManager\b", tys) or re.search(r"&mut (std::collections::|rustc_hash::\w*)?(Fx)?HashMap<", tys) or ((c.name() or "").endswith(("::clear", "::drain")) and "manager::" in tys):
+                bad.append((b, c))
+        # `*guard = RequestManager::default()` style overwrite
+        for bi, blk in enumerate(b.blocks):
+            if blk.get("cleanup"):
+                continue
+            for st in blk["st"]:
+                if st["s"] == "assign" and st["pl"].get("p") and st["pl"]["p"][-1] == "*" and "RequestManager" in b.locals[st["pl"]["l"]]["ty"] and not re.search(r"manager::RequestManager::", b.path):
+                    bad.append((b, None))
+    for b, c in bad:
+        R.bad("C09.R7", "%s:manager-cleared" % fkey(b), "%s empties the request manager wholesale (%s): every pending caller is woken with the internal ServiceDisconnect marker before the disconnect cause is published and then waits for it outside the request timeout" % (short(b.path), short(c.name()) if c else "overwrite"), where(c) if c else "%s:%d" % (b.file, b.lo))
+    if not bad:
+        R.ok("C09.R7", "manager-not-cleared", "no wholesale take/replace/clear of the request manager in %d client bodies" % n)
+    R.floor("C09.R7", n, 100, "client bodies scanned")
+
+
 def control_relock(ctx):
     from .common import control, double_lock_scan
 
@@ -300,7 +330,7 @@ def control_relock(ctx):
 CONTROLS = [control_relock]
 
 
-RULES = [r1_cause_before_close, r2_no_unchecked_arith_on_peer_numbers, r3_errors_reach_watcher, r4_frontend_mapping, r5_read_error, r6_no_relock]
+RULES = [r1_cause_before_close, r2_no_unchecked_arith_on_peer_numbers, r3_errors_reach_watcher, r4_frontend_mapping, r5_read_error, r6_no_relock, r7_manager_not_cleared_wholesale]
 
 LEVEL_TEXT = (
     "Structural necessary conditions of clean failure handling decided from the type-checked program: the happens-before "
